@@ -6,7 +6,9 @@
    yield are skipped, the module is deactivated, a PanicError is recorded unless the stereotype
    catches.  The stereotype is read when the panic is caught (after the callback), not before the
    callback: a callback may call set_stereotyp ([ASetCatch], record [ISetCatch m who b]) and
-   panic afterwards, and the new value decides ([stereotype_in_force] below).  Panics inside spawned tasks are caught
+   panic afterwards, and the new value decides ([stereotype_in_force] below).  The scripted panic stands for an explicit panic!() and for a panic the library raises on the
+   module's behalf inside the callback (schedule_at / send_at / shutdow_and_restart_at called with a time stamp in the past; coq/Life/Model.v
+   decodes both to [APanic]).  Panics inside spawned tasks are caught
    by tokio and reported as JoinErrors by at_sim_end; they do not deactivate the module.
    Unwinding itself (that catch_unwind leaves tokio's and Rust's state intact) is not modelled. *)
 From Coq Require Import List NArith Bool.
